@@ -572,6 +572,10 @@ func (vr *variableResolver) resolve(ctx *ExecutionContext) (*Value, error) {
 			rv := values[0]
 			if t.NumOut() == 2 {
 				e := values[1].Interface()
+				if values[1].Kind() == reflect.Ptr && values[1].IsNil() {
+					// a nil pointer of a concrete error type is no error
+					e = nil
+				}
 				if e != nil {
 					err, ok := e.(error)
 					if !ok {
